@@ -77,3 +77,16 @@ CONTRACTS[F + "difference_kernel"] = dict(
         "len(result) * stride + start + step > n_cols - 1",
     ],
 )
+
+# variable radii: the real-valued formula is the definition; what matters for C03/C14 is the shape of the table and that a
+# nullified mask gets radius exactly 0 (so it never opens a window) while no entry is negative
+CONTRACTS[F + "variable_window_radii"] = dict(
+    params=dict(window_size="int", token_frequency="real[]", mask_index="int", power="real"),
+    variants=_KVARIANTS,
+    requires=["window_size >= 0", "len(token_frequency) >= 1",
+              "implies(not is_none(mask_index), 0 <= mask_index and mask_index <= len(token_frequency))"],
+    returns="int[]",
+    ensures=["len(result) == len(token_frequency) + 1",
+             "implies(not is_none(mask_index), result[mask_index] == 0)",
+             "unchanged(token_frequency)"],
+)
